@@ -2,7 +2,7 @@
    Statements only; proofs are in Proofs/CalProofs.v and Proofs/SchedProofs.v. *)
 From Coq Require Import ZArith List Bool.
 Import ListNotations.
-Require Import BT.Num BT.Base BT.Cal BT.Records BT.Engine BT.Ops BT.Algos BT.Proofs.CalProofs BT.Proofs.SchedProofs.
+Require Import BT.Num BT.Base BT.Cal BT.Records BT.Engine BT.Ops BT.Algos BT.Proofs.CalProofs BT.Proofs.SchedProofs BT.Proofs.SchedProofs2.
 Local Open Scope Z_scope.
 
 (* calendar facts, for every timestamp (no range bound) *)
@@ -70,3 +70,37 @@ Theorem C12_run_after_days : forall N ps e p (n : nat) trs a' bs,
   bs = repeat false (Nat.min n (length trs)) ++ repeat true (length trs - n).
 Proof. exact run_after_days_calls. Qed.
 Print Assumptions C12_run_after_days.
+
+(* RunOnDate / RunAfterDate: exactly on the listed dates / strictly after the date, whatever the tree *)
+Theorem C12_run_on_date : forall N ps e p ds (tr : tree N (astate N)) g kids st i,
+  get_astate p tr = Ok (g, kids, st) -> g_now g = Some i ->
+  exists b, run_algo ps e p (ARunOnDate N ds) tr = Ok (ARunOnDate N ds, b, tr) /\ (b = true <-> In (ts_of e i) ds).
+Proof. exact run_on_date_spec. Qed.
+Print Assumptions C12_run_on_date.
+
+Theorem C12_run_after_date : forall N ps e p d (tr : tree N (astate N)) g kids st i,
+  get_astate p tr = Ok (g, kids, st) -> g_now g = Some i ->
+  exists b, run_algo ps e p (ARunAfterDate N d) tr = Ok (ARunAfterDate N d, b, tr) /\ (b = true <-> (d < ts_of e i)%Z).
+Proof. exact run_after_date_spec. Qed.
+Print Assumptions C12_run_after_date.
+
+(* RunEveryNPeriods: a repeated call on the same date is ignored and changes nothing; a call on a new date fires iff
+   the counter stands at n - 1 and advances it; hence with offset o the k-th distinct date fires iff k = o (mod n) *)
+Theorem C12_run_every_n_once_per_date : forall N ps e p n idx (tr : tree N (astate N)) g kids st i,
+  get_astate p tr = Ok (g, kids, st) -> g_now g = Some i ->
+  run_algo ps e p (ARunEveryNPeriods N n idx (Some i)) tr = Ok (ARunEveryNPeriods N n idx (Some i), false, tr).
+Proof. exact run_every_n_same_date. Qed.
+Print Assumptions C12_run_every_n_once_per_date.
+
+Theorem C12_run_every_n_new_date : forall N ps e p n idx lcall (tr : tree N (astate N)) g kids st i,
+  get_astate p tr = Ok (g, kids, st) -> g_now g = Some i -> lcall <> Some i ->
+  run_algo ps e p (ARunEveryNPeriods N n idx lcall) tr =
+  Ok (ARunEveryNPeriods N n (every_n_next n idx) (Some i), (idx =? n - 1)%Z, tr).
+Proof. exact run_every_n_new_date. Qed.
+Print Assumptions C12_run_every_n_new_date.
+
+Theorem C12_run_every_n_fires_every_nth_date : forall n o k,
+  (0 < n)%Z -> (0 <= o < n)%Z ->
+  ((every_n_iter n (n - o - 1) k =? n - 1)%Z = true <-> (Z.of_nat k mod n = o)%Z).
+Proof. exact run_every_n_fires. Qed.
+Print Assumptions C12_run_every_n_fires_every_nth_date.
